@@ -55,10 +55,19 @@ def _hex(n):
     return hex(n)
 
 
-def export_function(fn, data_segment=()):
+class Namer:
+    """variable / label numbering shared by all snapshots of one function (so that equal instructions of two snapshots
+    are equal terms, which the proved validators compare syntactically)"""
+
+    def __init__(self):
+        self.var_ix, self.lab_ix = {}, {}
+
+
+def export_function(fn, data_segment=(), namer=None):
     """-> dict(term=<Coq term of type func>, n_inst, ops=set of opcode names, unknown=set, allocas=n)"""
     from vyper.venom.basicblock import IRLabel, IRLiteral, IRVariable
-    var_ix, lab_ix = {}, {}
+    namer = namer or Namer()
+    var_ix, lab_ix = namer.var_ix, namer.lab_ix
     block_labels = {bb.label.value for bb in fn.get_basic_blocks()}
     # virtual code image: data sections laid out contiguously from DATA_BASE
     sec_base, cur = {}, DATA_BASE
@@ -94,7 +103,8 @@ def export_function(fn, data_segment=()):
             ops.add(op)
             outs = "[" + "; ".join(f"{var(o)}%positive" for o in inst.get_outputs()) + "]"
             if op == "alloca":
-                addr = ALLOCA_BASE + n_alloca * ALLOCA_STRIDE
+                # the region is named after the output variable (stable across the snapshots of a function)
+                addr = ALLOCA_BASE + var(inst.get_outputs()[0]) * ALLOCA_STRIDE
                 n_alloca += 1
                 insts.append(f"Inst {outs} O_alloca [OLit {_hex(addr)}]")
                 continue
@@ -141,7 +151,7 @@ def export_function(fn, data_segment=()):
     return {"term": term, "n_inst": n_inst, "ops": ops, "unknown": unknown, "allocas": n_alloca}
 
 
-def export_text(text):
+def export_text(text, namer=None):
     """snapshot text of ONE function -> export dict, or None when the parser rejects the text"""
     try:
         ctx = parse(text)
@@ -150,7 +160,7 @@ def export_text(text):
     fns = list(ctx.functions.values())
     if len(fns) != 1:
         return None
-    return export_function(fns[0], ctx.data_segment)
+    return export_function(fns[0], ctx.data_segment, namer)
 
 
 def coq_bytes(b):
